@@ -398,7 +398,7 @@ func c03R2R5(c *Ctx) {
 		sealDst = sl.X
 	}
 	nW := 0
-	eachInstr(wr, func(ins ssa.Instruction) {
+	P.eachOwnedInstr(wr, func(_ *ssa.Function, ins ssa.Instruction, tr func(ssa.Value) ssa.Value) {
 		call, ok := ins.(*ssa.Call)
 		if !ok || len(call.Call.Args) < 1 || !hasField(call.Call.Args[0], fRaw) {
 			return
@@ -413,10 +413,10 @@ func c03R2R5(c *Ctx) {
 			nW++
 			a := strip(call.Call.Args[1])
 			_, isC := a.(*ssa.Const)
-			if cv, ok := a.(*ssa.Convert); ok && paramIndex(wr, cv.X) == 1 {
+			if cv, ok := a.(*ssa.Convert); ok && paramIndex(wr, tr(cv.X)) == 1 {
 				isC = true // byte(msgType)
 			}
-			if paramIndex(wr, a) == 1 {
+			if paramIndex(wr, tr(a)) == 1 {
 				isC = true
 			}
 			c.Check(isC, "C03.R5", FuncName(wr)+"#packet-bytes", P.InstrPos(call), "header constant", "a non-constant byte other than the message type is written into the packet header")
@@ -480,7 +480,7 @@ func c03R3(c *Ctx) {
 		return
 	}
 	name := FuncName(wr)
-	ws := P.FieldWrites(fCount)
+	ws := P.HoistWrites(P.FieldWrites(fCount), func(fn *ssa.Function) bool { return fn == wr })
 	for _, w := range ws {
 		c.Check(w.Fn == wr, "C03.R3", "write:SessionState.count@"+FuncName(w.Fn), P.InstrPos(w.Instr), "counter advanced by the sealer", "the send counter is written outside sealPacketLocked (a counter could be reused under the same key)")
 	}
@@ -784,7 +784,7 @@ func checkC15(c *Ctx) {
 		"transport.(*Server).handleSessionMessage": true,
 		"transport.(*Client).handleSessionMessage": true,
 	}
-	ws := P.FieldWrites(fAddr)
+	ws := P.HoistWrites(P.FieldWrites(fAddr), func(fn *ssa.Function) bool { return construct[FuncName(fn)] || tail[FuncName(fn)] })
 	for _, w := range ws {
 		n := FuncName(w.Fn)
 		cons := "write:SessionState.remoteAddr@" + n
@@ -805,8 +805,7 @@ func checkC15(c *Ctx) {
 			c.Check(okv, "C15.R2", cons+"#after-auth", P.InstrPos(w.Instr), "dominated by the nil edge of readPacketLocked",
 				"the session's peer address is updated on a path where readPacketLocked did not return nil (a forged, corrupted or replayed datagram could redirect traffic)")
 			// same datagram: the stored value is the handler's addr parameter, the opened packet its msg parameter
-			st, _ := w.Instr.(*ssa.Store)
-			same := st != nil && paramIndex(w.Fn, st.Val) >= 0 && rp != nil && len(rp.Call.Args) == 4 && paramIndex(w.Fn, rp.Call.Args[2]) >= 0
+			same := w.Kind == "store" && w.Val != nil && paramIndex(w.Fn, w.Val) >= 0 && rp != nil && len(rp.Call.Args) == 4 && paramIndex(w.Fn, rp.Call.Args[2]) >= 0
 			c.Check(same, "C15.R2", cons+"#same-datagram", P.InstrPos(w.Instr), "stores the source address of the datagram that was opened",
 				"the stored address is not the source-address parameter of the datagram that readPacketLocked opened")
 		default:
